@@ -13,6 +13,7 @@ import (
 	"os"
 	"os/exec"
 	"path/filepath"
+	"runtime/pprof"
 	"strings"
 	"time"
 
@@ -99,6 +100,9 @@ var c16Hostile = []string{
 	"SELECT a FROM t WHERE ANY(d1) = 1", "SELECT a FROM t WHERE LEN(d1, d2) = 1", "SELECT a FROM t WHERE DECODE() = 1", "SELECT a FROM t WHERE CONCAT() = ''",
 	"SELECT a FROM t WHERE PSPLIT(d1, ',', 0) = 'x'", "SELECT a FROM t WHERE P(d1) = 'x'", "SELECT a FROM t WHERE RAND() < 2",
 	"select a from T where D1 = 'v1' group by D1", "SELECT A FROM T",
+	// redis expressions on a database without Redis: the second evaluation in one process (the first is the HGET above)
+	"SELECT a FROM t WHERE LUA('return 1', ARRAY(d1), ARRAY(d2)) = 1",
+	"SELECT b FROM t WHERE HGET('h', d1) = 'y'",
 }
 
 var c16ValFns = []string{"SUM", "MIN", "MAX", "COUNT", "AVG", "WAVG", "IF", "BOUNDED", "PERCENTILE", "SHIFT", "CROSSHIFT", "LN", "LOG2", "LOG10", "NOSUCH", "CONCAT"}
@@ -343,13 +347,13 @@ func runC16(e *Env) error {
 			rf.Close()
 		}
 		if next < len(cases) {
-			// the worker died (or hung and was killed) while executing case `begun`
-			if begun < next {
-				begun = next
-			}
-			results[begun] = map[string]string{"process": "crash"}
 			crashes++
-			next = begun + 1
+			if begun >= next {
+				// the worker died while executing case `begun`
+				results[begun] = map[string]string{"process": "crash"}
+				next = begun + 1
+			}
+			// (otherwise it ended between two cases - after reporting a hang - and is restarted at the next one)
 			if crashes > 50 {
 				return fmt.Errorf("more than 50 worker crashes, giving up")
 			}
@@ -460,6 +464,11 @@ func runC16Worker(e *Env) error {
 			select {
 			case <-done:
 			case <-time.After(20 * time.Second):
+				// where every goroutine stands goes next to the results (diagnosis of the stall)
+				if hf, herr := os.Create(filepath.Join(e.Out, fmt.Sprintf("c16.hang.%d.txt", i))); herr == nil {
+					pprof.Lookup("goroutine").WriteTo(hf, 2)
+					hf.Close()
+				}
 				emit(map[string]interface{}{"end": i, "res": map[string]string{"process": "hang"}})
 				os.Exit(3)
 			}
